@@ -94,9 +94,25 @@ Section Steps.
     destruct (rposition ls w 0 None); reflexivity.
   Qed.
 
+  (* the token is a word of the enum builder (as the dictionary of s resolves it).  Such a
+     token performs two or three context operations at once (`enum`: open, open; a field word:
+     close, open; `endenum`: close, close) and is NOT a token step in the sense of [tstep]: the
+     block theorems of this file and of MetaSeg / MetaInline / MetaCompile2 are about sources
+     whose tokens are not enum words; `enum ... endenum` itself is the subject of
+     EnumBlock.v. *)
+  Definition enum_tok (s : state) (t : btok) : bool :=
+    match t with
+    | BWord name =>
+      match dict_entry s name with
+      | Some (DFun true (FNative w) _) => enum_native w
+      | _ => false
+      end
+    | _ => false
+    end.
+
   Definition tstep (f : nat) (s s' : state) : Prop :=
     exists s1 t s2, pre_run s = ROk tt s1 /\ get_token pr s1 = ROk t s2 /\ t <> BEnd /\
-                    tok_act f t s2 = ROk tt s'.
+                    enum_tok s2 t = false /\ tok_act f t s2 = ROk tt s'.
 
   Definition interned (txt : string) (s : state) : state :=
     set_input (set_sources s (sources s ++ [txt])) (mkinlex (length (sources s)) (lex_new txt) :: input s).
@@ -153,17 +169,18 @@ Section Steps.
     - split; [exact Ec|]. right. exists txt. reflexivity.
   Qed.
 
-  Lemma ctx_word_cases n : ctx_word n = true -> n = "#(" \/ n = "#)" \/ n = "~)".
+  Lemma ctx_word_cases n : ctx_word n = true -> n = "#(" \/ n = "#)" \/ n = "~)" \/ enum_native n = true.
   Proof.
-    unfold ctx_word. intros H. apply orb_true_iff in H. destruct H as [H|H].
+    unfold ctx_word. intros H. apply orb_true_iff in H. destruct H as [H|H]; [|auto].
+    apply orb_true_iff in H. destruct H as [H|H].
     - apply orb_true_iff in H. destruct H as [H|H]; apply String.eqb_eq in H; auto.
     - apply String.eqb_eq in H. auto.
   Qed.
 
   Lemma cls_ctx_words cs di fuel n w :
-    immediate_fn fo pr rf fuel n = Some w -> ctx_word n = true -> cls cs di w.
+    immediate_fn fo pr rf fuel n = Some w -> ctx_word n = true -> enum_native n = false -> cls cs di w.
   Proof.
-    intros H Hc. destruct (ctx_word_cases n Hc) as [ -> | [ -> | -> ] ].
+    intros H Hc Hn. destruct (ctx_word_cases n Hc) as [ -> | [ -> | [ -> | C ] ] ]; [| | |congruence].
     - assert (E : immediate_fn fo pr rf fuel "#(" = Some i_nested_begin) by reflexivity.
       rewrite E in H. injection H as <-. apply cls_nested_begin.
     - assert (E : immediate_fn fo pr rf fuel "#)" = Some (i_nested_end fo rf)) by reflexivity.
@@ -172,9 +189,11 @@ Section Steps.
       rewrite E in H. injection H as <-. apply cls_nested_inject.
   Qed.
 
-  Lemma cls_build_word cs di f name : cls cs di (build_word fo pr rf f name).
+  Lemma cls_build_word cs di f name s s' : enum_tok s (BWord name) = false ->
+    Pre2 cs di s -> build_word fo pr rf f name s = ROk tt s' ->
+    R2 cs di s s' \/ s' = opened s \/ closes cs di s s'.
   Proof.
-    intros s s' P E. unfold build_word, bind, get in E.
+    intros Hn P E. unfold build_word, bind, get in E. cbn [enum_tok] in Hn.
     destruct (dict_entry s name) as [[c|a|[|] [x|n] len]|]; try discriminate.
     - eapply (cls_fp _ _ _ (fpp_code_emit cs di _)); eassumption.
     - eapply (cls_fp _ _ _ (fpp_code_emit cs di _)); eassumption.
@@ -188,17 +207,19 @@ Section Steps.
     - eapply (cls_fp _ _ _ (fpp_code_emit cs di _)); eassumption.
   Qed.
 
-  Lemma cls_tok_act cs di f t : cls cs di (tok_act f t).
+  Lemma cls_tok_act cs di f t s s' : enum_tok s t = false ->
+    Pre2 cs di s -> tok_act f t s = ROk tt s' ->
+    R2 cs di s s' \/ s' = opened s \/ closes cs di s s'.
   Proof.
-    destruct t as [|name|v]; cbn [tok_act].
-    - apply cls_fp. apply fp_ret.
-    - intros s s' P E. unfold bind, get in E.
+    intros Hn P E. destruct t as [|name|v]; cbn [tok_act] in E.
+    - eapply (cls_fp _ _ _ (fp_ret _ _ _)); eassumption.
+    - unfold bind, get in E.
       destruct (top_function_flow s) as [[[d st] ls]|].
       + destruct (rposition ls name 0 None).
         * eapply (cls_fp _ _ _ (fpp_code_emit cs di _)); eassumption.
         * eapply cls_build_word; eassumption.
       + eapply cls_build_word; eassumption.
-    - apply cls_fp. exact (fpp_code_emit_value cs di v).
+    - eapply (cls_fp _ _ _ (fpp_code_emit_value cs di v)); eassumption.
   Qed.
 
   Lemma fpp_pre_run cs di : fp (F2 cs di) pre_run.
@@ -207,14 +228,14 @@ Section Steps.
   Theorem tstep_cls cs di f s s' : Pre2 cs di s -> tstep f s s' ->
     R2 cs di s s' \/ (exists s2, R2 cs di s s2 /\ s' = opened s2) \/ closes cs di s s'.
   Proof.
-    intros P (s1 & t & s2 & E1 & E2 & Ht & E3).
+    intros P (s1 & t & s2 & E1 & E2 & Ht & Hn & E3).
     pose proof (fpp_pre_run cs di s P) as H1. rewrite E1 in H1. cbn [res_all F2 fr_rel] in H1.
     pose proof (R2_keep _ _ _ _ P H1) as P1.
     pose proof (fpp_core cs di _ _ (fp_scorep _ _ (scorep_get_token pr)) (corep_get_token pr) s1 P1) as H2.
     rewrite E2 in H2. cbn [res_all F2 fr_rel] in H2.
     pose proof (R2_trans _ _ _ _ _ H1 H2) as H12.
     pose proof (R2_keep _ _ _ _ P H12) as P2.
-    destruct (cls_tok_act cs di f t s2 s' P2 E3) as [H|[H|(s3 & s4 & A & B & C & D)]].
+    destruct (cls_tok_act cs di f t s2 s' Hn P2 E3) as [H|[H|(s3 & s4 & A & B & C & D)]].
     - left. eapply R2_trans; eassumption.
     - right. left. exists s2. split; assumption.
     - right. right. exists s3, s4. split; [eapply R2_trans; eassumption|]. repeat split; assumption.
